@@ -89,6 +89,11 @@ func (c03) Build(tier string, seed uint64) []any {
 		add(runLimitBatches([]int{6, 8, 10, 12, 16}, []int{1}, []int{0}, 24, []int{1, 2}))
 		add(runLimitBatches([]int{8, 12}, []int{3}, []int{0}, 12, []int{1}))
 	}
+	if th {
+		add(tallRunBatches([]int{11, 12, 13, 14, 15, 16}, []int{1, 2, 3, 5, 8}, []int{0}, 96))
+	} else {
+		add(tallRunBatches([]int{12, 16}, []int{1, 3, 8}, []int{0}, 64))
+	}
 	for j, p := range []int{2, 5, 8, 12, 16} {
 		if !th && j%2 == int(seed%2) {
 			continue
